@@ -79,6 +79,41 @@ def readFullActs : Nat → RS → Nat → List HAct
     unread stream was dropped -/
 def HS.keep (s : HS) : Bool := !((s.attached && s.rs.unread) || s.droppedUnread)
 
+/-! ### chunked request streams: end and framing errors are absorbing
+(streaming.go requestStream.Read, chunked branch, with `chunkedDone` and the sticky `chunkedErr`) -/
+
+inductive CPhase | reading | done | failed
+  deriving DecidableEq, Repr
+
+/-- `consumed` = bytes this stream has taken out of the connection so far -/
+structure ChunkSt where
+  phase : CPhase := .reading
+  consumed : Nat := 0
+  deriving DecidableEq, Repr
+
+/-- what one Read call meets in the connection -/
+inductive COutcome
+  | data (framing payload : Nat)      -- (part of) a chunk: its framing bytes and `payload` data bytes are consumed
+  | last (framing : Nat)              -- the terminating chunk and the trailer section: the body ends
+  | malformed (taken : Nat)           -- a framing error after `taken` bytes were consumed
+  deriving DecidableEq, Repr
+
+def ChunkSt.read (s : ChunkSt) (o : COutcome) : ChunkSt :=
+  match s.phase with
+  | .done | .failed => s               -- EOF again / the same error again: the connection is not touched
+  | .reading =>
+    match o with
+    | .data f p => { s with consumed := s.consumed + f + p }
+    | .last f => { phase := .done, consumed := s.consumed + f }
+    | .malformed k => { phase := .failed, consumed := s.consumed + k }
+
+def ChunkSt.run (s : ChunkSt) : List COutcome → ChunkSt
+  | [] => s
+  | o :: rest => (s.read o).run rest
+
+/-- requestStream.unread for a chunked body -/
+def ChunkSt.unread (s : ChunkSt) : Bool := s.phase != .done
+
 /-- how the Expect: 100-continue handlers leave the loop -/
 inductive ExpectOutcome
   | noExpect            -- request did not ask, or no handler configured and the body is read
